@@ -128,8 +128,10 @@ for x in B:
 print(len(B), "benign refactorings (total)")
 # C08 (claimed after the seeding rounds)
 M2 = []
-def m2(prop, name, file, old, new, expect="", note=""):
+def m2(prop, name, file, old, new, expect="", note="", more=None):
     d = dict(name=name, file=file, old=old, new=new, expect_rule=expect, note=note)
+    if more:
+        d["more"] = [dict(old=o, new=n) for o, n in more]
     os.makedirs(os.path.join("/verif/mutants", prop), exist_ok=True)
     json.dump(d, open(os.path.join("/verif/mutants", prop, name + ".json"), "w"), indent=1, ensure_ascii=False)
     M2.append(name)
@@ -150,6 +152,25 @@ m2("C08","dedupe-parent-package","util/resolve/pypi/resolve.go","\t\t\tif crit.i
 b("c08-dedupe-fieldwise", ["C08"], "util/resolve/pypi/resolve.go", "\t\t\tif crit.informationParents[i] == parent {", "\t\t\tif old := crit.informationParents[i]; old.PackageKey == parent.PackageKey && old.VersionType == parent.VersionType && old.Version == parent.Version {", note="whole-key comparison spelled field by field")
 m2("C19","writer-quotes-only","util/resolve/internal/versiontest/versiontest.go","\t\t\t\tss = append(ss, value)","\t\t\t\tss = append(ss, strconv.Quote(value))","C19.f","writer quotes values, parser reads them verbatim")
 b("c19-both-sides-quote", ["C19"], "util/resolve/internal/versiontest/versiontest.go", "\t\t\t\tss = append(ss, value)", "\t\t\t\tss = append(ss, strconv.Quote(value))", more=[("\t\tattr.SetAttr(key, items[i])\n\t}\n\treturn attr, nil", "\t\tval, err := strconv.Unquote(items[i])\n\t\tif err != nil {\n\t\t\treturn version.AttrSet{}, err\n\t\t}\n\t\tattr.SetAttr(key, val)\n\t}\n\treturn attr, nil")], note="writer quotes and parser unquotes (structural guard only; values with spaces aside)")
+m2("C12","revert-latest-substring","util/resolve/match.go","slices.Contains(strings.Split(tags, \",\"), \"latest\")","strings.Contains(tags, \"latest\")","C12.f","reverse of the fix: substring test on the raw tag list")
+b("c12-latest-helper", ["C12"], "util/resolve/match.go", "\t\tif tags, _ := v.GetAttr(version.Tags); slices.Contains(strings.Split(tags, \",\"), \"latest\") {", "\t\tif tags, _ := v.GetAttr(version.Tags); hasTag(tags, \"latest\") {", more=[("// SortDependencies sorts a set of dependencies", "func hasTag(tags, tag string) bool {\n\tfor _, t := range strings.Split(tags, \",\") {\n\t\tif t == tag {\n\t\t\treturn true\n\t\t}\n\t}\n\treturn false\n}\n\n// SortDependencies sorts a set of dependencies"), ("import (\n\t\"slices\"\n\t\"sort\"", "import (\n\t\"sort\"")], note="exact tag test moved into a helper")
+m2("C03","minversion-keeps-prerelease","util/semver/version.go","\t\tv.isPrerelease = false\n","","C03/RECYCLE","the synthetic lowest version inherits isPrerelease from the user's bound")
+b("c03-minversion-struct-literal", ["C03","C04","C09"], "util/semver/version.go", "\t\tfor i := range v.buf {\n\t\t\tv.buf[i] = 0\n\t\t}\n\t\tv.num = v.buf[:3]\n", "\t\t*v = Version{sys: v.sys}\n\t\tv.num = v.buf[:3]\n", note="argument reset with a struct literal before the field stores")
+m2("C05","marker-cache-folded-key","util/resolve/pypi/resolve.go","\tcached, ok := p.markerCache.Get(raw)","\tkey := strings.ToLower(raw)\n\tcached, ok := p.markerCache.Get(key)","C05.f","marker cache keyed by the lower-cased text while the original text is parsed", more=[("\tp.markerCache.Add(raw, m)", "\tp.markerCache.Add(key, m)")])
+m2("C05","marker-cache-get-folded","util/resolve/pypi/resolve.go","\tcached, ok := p.markerCache.Get(raw)","\tcached, ok := p.markerCache.Get(strings.ToLower(raw))","C05.f","looked up under a folded key, stored under the original")
+b("c05-marker-trimmed-both", ["C05","C16"], "util/resolve/pypi/resolve.go", "\tcached, ok := p.markerCache.Get(raw)", "\traw = strings.TrimSpace(raw)\n\tcached, ok := p.markerCache.Get(raw)", note="the same normalised text is key and parser input")
+m2("C15","managed-scope-overrides","util/maven/dependency.go","\t\t\tif dep.Scope == \"\" {\n\t\t\t\tdep.Scope = dm.Scope\n\t\t\t}","\t\t\tif dm.Scope != \"\" {\n\t\t\t\tdep.Scope = dm.Scope\n\t\t\t}","C15.d","managed scope overrides the declared one")
+b("c15-declared-wins-other-forms", ["C15"], "util/maven/dependency.go", "\t\t\tif len(dep.Exclusions) == 0 {\n\t\t\t\tdep.Exclusions = dm.Exclusions\n\t\t\t}", "\t\t\tif len(dep.Exclusions) > 0 {\n\t\t\t\t// keep what the dependency declares\n\t\t\t} else {\n\t\t\t\tdep.Exclusions = append([]Exclusion(nil), dm.Exclusions...)\n\t\t\t}", note="emptiness test in the other polarity, managed exclusions copied")
+# C10 / C11 (claimed after the 5th seeding round)
+m2("C10","canon-folds-local","util/semver/pep440.go","\t\tfmt.Fprintf(&b, \"+%s\", p.ext.local)","\t\tfmt.Fprintf(&b, \"+%s\", strings.ToLower(p.ext.local))","C10.b","local label lower-cased by the printer only")
+m2("C10","canon-drops-devnum","util/semver/pep440.go","\t\tfmt.Fprintf(&b, \".dev%d\", p.ext.devNum)","\t\tfmt.Fprint(&b, \".dev\")","C10.a","dev number compared but not printed")
+m2("C10","canon-clears-build","util/semver/version.go","\tif v.sys == NuGet {\n\t\tshowBuild = false\n\t}","\tif v.sys == NuGet {\n\t\tshowBuild = false\n\t\tv.build = \"\"\n\t}","C10.c","Canon modifies the version it prints")
+b("c10-canon-pre-helper", ["C10","C04"], "util/semver/version.go", "\tfor i, pre := range v.pre {\n\t\tif i == 0 {\n\t\t\tb.WriteByte('-')\n\t\t} else {\n\t\t\tb.WriteByte('.')\n\t\t}\n\t\tif v.sys == NuGet {\n\t\t\tfmt.Fprint(&b, strings.ToLower(pre))\n\t\t} else {\n\t\t\tfmt.Fprint(&b, pre)\n\t\t}\n\t}\n\tif showBuild {", "\tv.printPre(&b)\n\tif showBuild {", more=[("func (v *Version) printNums(b *strings.Builder) {", "func (v *Version) printPre(b *strings.Builder) {\n\tfor i, pre := range v.pre {\n\t\tif i == 0 {\n\t\t\tb.WriteByte('-')\n\t\t} else {\n\t\t\tb.WriteByte('.')\n\t\t}\n\t\tif v.sys == NuGet {\n\t\t\tpre = strings.ToLower(pre)\n\t\t}\n\t\tb.WriteString(pre)\n\t}\n}\n\nfunc (v *Version) printNums(b *strings.Builder) {")], note="prerelease printing moved into a helper")
+m2("C11","unit-consults-open-flags","util/semver/span.go","\tcase unit:\n\t\treturn compare(s.min, v) == 0\n\t}","\tcase unit:\n\t\tif s.minOpen || s.maxOpen {\n\t\t\treturn false\n\t\t}\n\t\treturn compare(s.min, v) == 0\n\t}","C11.a","matching a unit span depends on flags its text does not show")
+m2("C11","parse-forgets-max-open","util/semver/span.go","\t\t\tminOpen: minOpen,\n\t\t\tmaxOpen: maxOpen,\n\t\t\trank:    vector,\n\t\t\tmin:     min,\n\t\t\tmax:     max,\n\t\t}, false, nil","\t\t\tminOpen: minOpen,\n\t\t\trank:    vector,\n\t\t\tmin:     min,\n\t\t\tmax:     max,\n\t\t}, false, maxOpenErr(maxOpen)","C11.b","parsed vector span never gets its maxOpen flag", more=[("// newSpan returns the span defined by the min and max versions.", "func maxOpenErr(bool) error { return nil }\n\n// newSpan returns the span defined by the min and max versions.")])
+b("c11-contains-if-chain", ["C11","C09","C04"], "util/semver/span.go", "\tswitch s.rank {\n\tcase empty:\n\t\treturn false\n\tcase unit:\n\t\treturn compare(s.min, v) == 0\n\t}", "\tif s.rank == empty {\n\t\treturn false\n\t}\n\tif s.rank != vector {\n\t\treturn compare(s.min, v) == 0\n\t}", note="rank switch written as an if chain with a != test")
+m2("C12","sort-only-matches","util/resolve/match.go","\tsortNPMVersions(vers)\n\tconstraint, err := req.System.Semver().ParseConstraint(req.Version)\n\tif err != nil {\n","\tconstraint, err := req.System.Semver().ParseConstraint(req.Version)\n\tif err != nil {\n\t\tsortNPMVersions(vers)\n","C12.g","range matches sorted after filtering", more=[("\t\t\tmatches = append(matches, v)\n\t\t}\n\t}\n\treturn matches\n}\n\n// matchRequirement is a default", "\t\t\tmatches = append(matches, v)\n\t\t}\n\t}\n\tsortNPMVersions(matches)\n\treturn matches\n}\n\n// matchRequirement is a default")])
+b("c12-sort-a-copy", ["C12","C05","C14"], "util/resolve/match.go", "\tsortNPMVersions(vers)\n\tconstraint, err := req.System.Semver().ParseConstraint(req.Version)", "\tvers = slices.Clone(vers)\n\tsortNPMVersions(vers)\n\tconstraint, err := req.System.Semver().ParseConstraint(req.Version)", note="the complete list is copied before it is sorted")
 for x in B:
     json.dump({k: v for k, v in x.items() if k != "name"}, open(os.path.join("/verif/mutants/benign", x["name"] + ".json"), "w"), indent=1, ensure_ascii=False)
 print(len(M2), "C08 mutants;", len(B), "benign total")
